@@ -205,7 +205,22 @@ func (a *archetype) Set(index uint32, id ID, comp interface{}) unsafe.Pointer {
 
 	src := rValue.UnsafePointer()
 	a.copy(src, dst, size)
+	// The raw copy above hides from the compiler that everything the component references is stored on the heap.
+	// Force it to escape, so that pointers inside the component never refer to the caller's stack.
+	escapes(comp)
 	return dst
+}
+
+// escapes forces a value, and everything it references, to be heap allocated.
+func escapes(x any) {
+	if escapeSink.b {
+		escapeSink.x = x
+	}
+}
+
+var escapeSink struct {
+	b bool
+	x any
 }
 
 // SetPointer overwrites a component with the data behind the given pointer
